@@ -115,7 +115,10 @@ def check(rep, tier):
     nseq = 6 if tier == "quick" else 40
     other = {"square": "hexagonal", "hexagonal": "square"}
     FIXED = [[("H_int",), ("configPath",), ("H_int",)], [("group",), ("configPath",), ("H_ext",)], [("group",), ("configPath",), ("H_int",), ("configPath",), ("H_int",)],
-             [("H_ext",), ("shape", (3, 2, 2)), ("configPath",), ("H_ext",)]]
+             [("H_ext",), ("shape", (3, 2, 2)), ("configPath",), ("H_ext",)],
+             # same vial count, other geometry, then a step that touches only the shelf vector before the matrices are read again
+             [("H_int",), ("shape", (9, 1, 1)), ("H_shelf",), ("H_int",)], [("H_ext",), ("shape", (1, 9, 1)), ("seed",), ("H_ext",)],
+             [("H_int",), ("shape", (1, 3, 3)), ("seed",), ("H_shelf",), ("H_int",)]]
     for arr0 in ("square", "hexagonal"):
         for s_i in range(nseq + len(FIXED)):
             hist = []
